@@ -3,7 +3,7 @@
 //! a logging discard handler, acceptance ports, TTLs, logging lifecycle hooks, a leaky-bucket
 //! rate limiter and a gated `WorkerCapacityController` (to hold the factory busy).
 //!
-//! usage: factory --seed S --cases N --out DIR [--corpus f1,f2,...] [--maxops K]
+//! usage: factory --seed S --cases N --out DIR [--replay-ops f1,f2,...] [--only-replay 1] [--maxops K]
 //!
 //! One fresh runtime (fresh virtual clock) and one fresh factory per case.  Times are ns
 //! since the case's runtime start.  Every op line ends with `t=<t0>,<tq>,<te>`: executed at
@@ -705,10 +705,10 @@ fn run_one(cfg: CaseCfg, script: Script, st: Arc<Mutex<Stats>>) -> Vec<(String, 
 fn main() {
     let args = Args::parse();
     let seed = args.u64("seed", 1);
-    let cases = args.u64("cases", 100);
+    let cases = if args.u64("only-replay", 0) == 1 { 0 } else { args.u64("cases", 100) };
     let maxops = args.u64("maxops", 40) as usize;
     let out = args.str("out", "/tmp/factory-out");
-    let corpus = args.str("corpus", "");
+    let corpus = args.str("replay-ops", "");
     std::panic::set_hook(Box::new(|_| {}));
     let mut log = Log::create(std::path::Path::new(&out)).unwrap();
     let st = Arc::new(Mutex::new(Stats::default()));
